@@ -33,9 +33,12 @@ TX_KINDS = ["PlanAdd", "PlanModify", "PlanDel", "SubBuy", "SubBuyAdvance", "SubA
 
 def plan(ctx, pid):
     """number of histories per family (quick total >= 100)"""
-    quick = {"all": 45, "renew": 30, "stake": 20, "iprpc": 15}
+    quick = {"all": 40, "renew": 28, "stake": 18, "iprpc": 14}
     thorough = {"all": 200, "renew": 120, "stake": 90, "iprpc": 60}
-    return quick if ctx.quick else thorough
+    base = quick if ctx.quick else thorough
+    # VERIF_HIST_SCALE (default 1) shrinks the number of histories; used only for the mutant self-tests on a busy machine
+    scale = float(os.environ.get("VERIF_HIST_SCALE", "1"))
+    return {k: max(3, int(v * scale)) for k, v in base.items()}
 
 
 def design_level(ctx, which=("", "_sub", "_stake", "_iprpc")):
@@ -162,15 +165,12 @@ def validate(ctx, cfg, tpath, tag):
         raise vlib.Infra("Obs-mode validation did not consume the trace (reached %s of %s; see %s)" % (
             res["reached"], res["total"], res["outfile"]))
     line = vlib.violated_line(res)
+    if res["violated"] == "invariant:ProjectionSound":
+        raise vlib.Infra("logged bank does not add up to the logged supply at trace line %s (projection incomplete; see %s)" % (
+            line, res["outfile"]))
     if line is None:
         raise vlib.Infra("cannot locate the violating trace line (see %s)" % res["outfile"])
     return {"kind": res["violated"], "line": line, "out": res["outfile"]}
-
-
-def sanity(ctx, tpath, tag):
-    bad = validate(ctx, "Trace_LavaChain_sane.cfg", tpath, tag + "_sane")
-    if bad:
-        raise vlib.Infra("logged bank does not add up to the logged supply at trace line %d (projection incomplete)" % bad["line"])
 
 
 def hunt(ctx, cfg, behs, tag, signature_of, what_of, max_findings=12, live=True):
@@ -178,7 +178,6 @@ def hunt(ctx, cfg, behs, tag, signature_of, what_of, max_findings=12, live=True)
     re-validated; reproduced ones are reported (ctx.violation), then removed and the rest is validated again,
     so that a known finding never hides a different one.  Returns rows of the first full run."""
     tpath, rows = drive(ctx, behs, tag)
-    sanity(ctx, tpath, tag)
     if live:
         check_live(ctx, rows, len(behs))
     remaining = list(range(len(behs)))
@@ -258,7 +257,7 @@ def _what(kind, prev, ev, step):
 
 
 def run(ctx):
-    design_level(ctx)
+    design_level(ctx, which=ctx.pick(("", "_stake"), ("", "_sub", "_stake", "_iprpc")))
     fams = generate(ctx, plan(ctx, "C09"))
     behs = flatten(fams)
     common_cov(ctx, behs)
